@@ -460,12 +460,83 @@ def rule_r5(chk):
            "each frame ends one period before the next break; the last ends at the base end", m.loc(sp))
 
 
+SIM_MODULES = ("irispie.fords.simulators", "irispie.fords.shock_simulators", "irispie.stacked_time.simulators", "irispie.period_by_period.simulators",
+               "irispie.simultaneous._simulate")
+KEPT_PART = {"end": "simulation_end", "last": "simulation_last", "slice": "simulation_slice", "num_columns": "num_simulation_columns"}
+
+
+def rule_r7(chk, rid="C06-R7", modules=SIM_MODULES):
+    chk.rule(rid, "a frame is simulated up to its *simulation* end and only its first part (up to the next surprise) is kept: the simulators "
+             "read the end of their window from frame.simulation_end / simulation_last / simulation_slice / num_simulation_columns; "
+             "frame.end / last / slice (the kept part) are read by frames.py only, when results are written back", floor=10, shape_independent=True)
+    n = 0
+    for mn in modules:
+        m = chk.repo.mod(mn)
+        for q, f in m.functions():
+            if "." in q and q.rsplit(".", 1)[0] in dict(m.functions()):
+                continue                    # nested functions are walked with their parent
+            for a in ast.walk(f):
+                if isinstance(a, ast.Attribute) and isinstance(a.value, ast.Name) and a.value.id == "frame" and isinstance(a.ctx, ast.Load):
+                    n += 1
+                    chk.saw(m, q)
+                    if a.attr in KEPT_PART:
+                        chk.bad(rid, f"{mn.replace('irispie.', '')}.{q}[frame.{a.attr}]", f"reads frame.{a.attr}, the end of the part that is KEPT; the simulated "
+                                f"window ends at frame.{KEPT_PART[a.attr]} (they differ whenever a later surprise splits the span)", m.loc(a))
+                    else:
+                        chk.ok(rid, f"{mn.replace('irispie.', '')}.{q}[frame.{a.attr}]", "window taken from the simulation end / start of the frame", m.loc(a))
+
+
+def rule_r8(chk, rid="C06-R8"):
+    from ..core import inline_locals
+    chk.rule(rid, "how far a split frame is simulated: the forward-looking simulators (stacked time, first order) simulate every frame to the "
+             "end of the base span (perfect foresight of everything already known), so their get_simulation_end callback returns "
+             "<dataslate>.base_periods[-1] whatever (start, end) it is given; period-by-period simulates the frame only (returns end); "
+             "split_into_frames hands the callback (start, end) in that order", floor=4, shape_independent=True)
+    want = {"irispie.stacked_time.simulators": "base", "irispie.fords.simulators": "base", "irispie.period_by_period.simulators": "end"}
+    for mn, kind in want.items():
+        m = chk.repo.mod(mn)
+        f = m.func("create_frames")
+        chk.saw(m, "create_frames")
+        kws = [k.value for c in ast.walk(f) if isinstance(c, ast.Call) for k in c.keywords if k.arg == "get_simulation_end"]
+        short = mn.replace("irispie.", "")
+        if len(kws) != 1:
+            chk.undecided(rid, f"{short}.create_frames[get_simulation_end]", f"{len(kws)} callbacks passed", m.loc(f))
+            continue
+        cb = kws[0]
+        if isinstance(cb, ast.Name):
+            cb = assign_value(f, cb.id) or cb
+        if not isinstance(cb, ast.Lambda):
+            chk.undecided(rid, f"{short}.create_frames[get_simulation_end]", "callback is not a lambda", m.loc(f))
+            continue
+        body = inline_locals(f, cb.body)
+        txt = squash(body)
+        a = cb.args
+        lam_params = [x.arg for x in a.posonlyargs + a.args] + ([a.vararg.arg] if a.vararg else [])
+        uses_params = sorted({n.id for n in ast.walk(cb.body) if isinstance(n, ast.Name)} & set(lam_params))
+        if kind == "base":
+            ok = txt.endswith(".base_periods[-1]") and not uses_params
+            chk.ob(rid, f"{short}.create_frames[get_simulation_end]", ok,
+                   f"returns {unparse(body)}" + (f" (depends on its arguments {uses_params}: the frame is simulated only up to a point that moves with the split)" if uses_params else ""),
+                   m.loc(cb), sure=True)
+        else:
+            ok = len(lam_params) == 2 and txt == lam_params[1]
+            chk.ob(rid, f"{short}.create_frames[get_simulation_end]", ok, f"lambda {', '.join(lam_params)}: {unparse(cb.body)} (the frame's own end)", m.loc(cb), sure=True)
+    fm = chk.repo.mod("irispie.frames")
+    calls = [c for q, g in fm.functions() for c in ast.walk(g) if isinstance(c, ast.Call) and dotted(c.func) == "get_simulation_end"]
+    ok = bool(calls) and all([unparse(x) for x in c.args] == ["start", "end"] for c in calls)
+    chk.ob(rid, "frames[callback arguments]", ok if calls else None, f"get_simulation_end is called with {[[unparse(x) for x in c.args] for c in calls]}", fm.loc(calls[0]) if calls else fm.rel)
+
+
 def run(chk):
     chk.guard(rule_r1, chk)
     chk.guard(rule_r2, chk)
     chk.guard(rule_r3, chk)
     chk.guard(rule_r4, chk)
     chk.guard(rule_r5, chk)
+    chk.guard(rule_r7, chk)
+    chk.guard(rule_r8, chk)
+    from . import c07
+    chk.guard(c07.rule_r5, chk, rid="C06-R9")
     from .. import variants
     chk.guard(variants.apply, chk, "C06-R6", [("irispie.simultaneous._simulate", "Inlay.simulate")])
     from .. import args as _args
